@@ -388,11 +388,19 @@ func (x *Exec) cellZero(c int) Term {
 }
 
 func (x *Exec) havocAll(st *State) {
+	var heldPrev Term
+	if _, ok := x.heapSort[heldKey]; ok {
+		heldPrev = x.heapGet(st, heldKey, heldSort)
+	}
 	x.epoch++
 	ep := x.epoch
 	for k, srt := range x.heapSort {
 		if len(k) > 2 && k[:2] == "G:" {
 			continue // globals are immutable outside init (checked)
+		}
+		if k == heldKey {
+			st.heap[k] = heldPrev // external / unknown code never touches klevdb's mutexes
+			continue
 		}
 		st.heap[k] = x.sc.declConst(fmt.Sprintf("H%d_%s", ep, sanitize(k)), srt)
 	}
